@@ -106,6 +106,8 @@ EDITS = {
         ("uv02", RT + "vm.rs", "                        *upv = UpValue::Closed(ov_raw.to_vec(), is_closure);\n                        is_closure.then_some(ov_raw[0])", "                        *upv = UpValue::Closed(ov_raw.to_vec(), is_closure);\n                        Some(ov_raw[0])", "verus", "upvalues"),
         ("uv03", RT + "vm.rs", "                        UpValue::Closed(data, true) => Some(data[0]),", "                        UpValue::Closed(data, _) => Some(data[0]),", "verus", "upvalues"),
         ("uv04", RT + "vm.rs", "                        *upv = UpValue::Closed(ov_raw.to_vec(), is_closure);", "                        *upv = UpValue::Closed(ov_raw.to_vec(), false);", "verus", "upvalues"),
+        ("rc05", "crates/lib/mimium-lang/src/compiler/mirgen.rs", "                    self.insert_clone_recursively(elem_v.clone(), *cty);\n", "", "verus", "mirgen_rc"),
+        ("rc06", "crates/lib/mimium-lang/src/compiler/mirgen.rs", "                    self.insert_clone_recursively(elem_v.clone(), *cty);\n", "                    if i > 0 { self.insert_clone_recursively(elem_v.clone(), *cty); }\n", "verus", "mirgen_rc"),
         ("rc01", "crates/lib/mimium-lang/src/compiler/mirgen.rs", "                    self.insert_release_recursively(field_v, field.ty);\n", "", "verus", "mirgen_rc"),
         ("rc02", "crates/lib/mimium-lang/src/compiler/mirgen.rs", "                // Boxed value being duplicated — increment its reference count\n                self.push_inst(Instruction::BoxClone { ptr: v.clone() });", "                // Boxed value being duplicated — increment its reference count", "verus", "mirgen_rc"),
         ("rc03", "crates/lib/mimium-lang/src/compiler/mirgen.rs", "                self.push_inst(Instruction::ReleaseUserSum {\n                    value: v.clone(),\n                    ty,\n                });", "                self.push_inst(Instruction::CloneUserSum {\n                    value: v.clone(),\n                    ty,\n                });", "verus", "mirgen_rc"),
